@@ -1615,3 +1615,68 @@ mut(
     "_EVALUATED = {}\n\n\ndef _remember(filename, namespace):\n    \"\"\"cache\"\"\"\n    _EVALUATED[filename] = namespace\n    return namespace\n\n\ndef sync_property(\n",
     expect="ok",
 )
+
+# ------------------------------------------------------------------ harmless edits that must stay silent
+mut(
+    "ok-c09-harmless-statement-in-cst_scan",
+    "C09",
+    "C09",
+    CSTU,
+    "    statement = \"\".join(stack)\n    statement_stripped = statement.strip()\n",
+    "    n_chars = len(stack)\n    del n_chars\n    statement = \"\".join(stack)\n    statement_stripped = statement.strip()\n",
+    expect="ok",
+)
+mut(
+    "ok-c09-scanner-loop-without-index",
+    "C09",
+    "C09",
+    CSTU,
+    "    for idx, ch in enumerate(source):\n",
+    "    for ch in source:\n",
+    expect="ok",
+)
+mut(
+    "ok-c18-extra-stdlib-import",
+    "C18",
+    "C18",
+    "cdd/shared/pure_utils.py",
+    "import string\n",
+    "import json\nimport string\n",
+    expect="ok",
+)
+mut(
+    "ok-c20-print-under-dry-run",
+    "C20",
+    "C20",
+    EXU,
+    "    if not path.isdir(mod_path):\n        if dry_run:\n",
+    "    if dry_run:\n        print(\"# dry run\", file=EXMOD_OUT_STREAM)\n    if not path.isdir(mod_path):\n        if dry_run:\n",
+    expect="ok",
+)
+mut(
+    "ok-c17-doctrans-reads-file-once-more",
+    "C17",
+    "C17",
+    "cdd/compound/doctrans.py",
+    "    with open(filename, \"rt\") as f:\n",
+    "    with open(filename, \"rt\") as f0:\n        _size = len(f0.read())\n    del _size\n    with open(filename, \"rt\") as f:\n",
+    expect="ok",
+)
+mut(
+    "ok-c10-sorted-set-kept",
+    "C10",
+    "C10",
+    AU,
+    "                        sorted(frozenset(map(itemgetter(0), mod_names[1]))),\n",
+    "                        sorted(set(map(itemgetter(0), mod_names[1]))),\n",
+    expect="ok",
+)
+mut(
+    "ok-c19-guard-message-reworded",
+    "C19",
+    "C19",
+    "cdd/__main__.py",
+    "File exists and this is a destructive operation.",
+    "File exists; this is a destructive operation.",
+    expect="ok",
+)
